@@ -59,7 +59,20 @@ fn date_format() -> BoxedStrategy<(String, u8, u8)> {
     let iso = (prop_oneof![3 => m().prop_map(|a| (format!("%{a}G"), 0u8)), 1 => m().prop_map(|a| (format!("%{a}g"), 2u8))], sep(), m(), sep(), wd_piece())
         .prop_map(|((g, gc), s1, a, s2, w)| (format!("{g}{s1}%{a}V{s2}{w}"), 0u8, gc));
     let week = (full_year, sep(), m(), proptest::sample::select(vec!["U", "W"]), sep(), wd_piece()).prop_map(|((y, yc), s1, a, uw, s2, w)| (format!("{y}{s1}%{a}{uw}{s2}{w}"), yc, 0u8));
-    prop_oneof![5 => cal3, 2 => comp, 2 => ord, 2 => iso, 2 => week].boxed()
+    // adjacency without separators where it is unambiguous: names next to names or to numbers,
+    // fixed-width zero-padded numbers next to each other
+    let wn = proptest::sample::select(vec!["%a", "%A"]);
+    let mn = proptest::sample::select(vec!["%b", "%B", "%h"]);
+    let adjacent = (wn, mn, sep(), sep(), 0u8..7, m()).prop_map(|(w, mo, s1, s2, k, a)| match k {
+        0 => (format!("{w}{mo}{s1}%{a}d{s2}%Y"), 0u8, 0u8),
+        1 => (format!("{mo}{w}{s1}%{a}e{s2}%Y"), 0, 0),
+        2 => (format!("%d{mo}%Y"), 0, 0),
+        3 => (format!("{mo}%d{s1}%Y{s2}{w}"), 0, 0),
+        4 => (format!("%Y{mo}%d{w}"), 0, 0),
+        5 => ("%Y%m%d".to_string(), 1, 0),
+        _ => (format!("%y%m%d{w}"), 2, 0),
+    });
+    prop_oneof![5 => cal3, 2 => comp, 2 => ord, 2 => iso, 2 => week, 3 => adjacent].boxed()
 }
 fn time_format() -> BoxedStrategy<String> {
     let frac = prop_oneof![3 => Just(""), 1 => Just("%.f"), 1 => Just("%.3f"), 1 => Just("%.6f"), 1 => Just("%.9f"), 1 => Just(".%f"), 1 => Just(".%-f"), 1 => Just(",%_f")];
@@ -72,7 +85,7 @@ fn time_format() -> BoxedStrategy<String> {
     let h24 = (proptest::sample::select(vec!["H", "k"]), m(), proptest::sample::select(vec![":", ".", " ", "h "]), m(), secs.clone()).prop_map(|(h, a, s, b, sec)| format!("%{a}{h}{s}%{b}M{sec}").replace("h ", "| "));
     let h12 = (proptest::sample::select(vec!["I", "l"]), m(), proptest::sample::select(vec![":", ".", " "]), m(), secs, proptest::sample::select(vec!["%p", "%P"]), proptest::sample::select(vec![" ", "", "  ", "_"]), any::<bool>())
         .prop_map(|(h, a, s, b, sec, ap, aps, front)| if front { format!("{ap} %{a}{h}{s}%{b}M{sec}") } else { format!("%{a}{h}{s}%{b}M{sec}{aps}{ap}") });
-    let comp = proptest::sample::select(vec!["%T", "%X", "%R", "%r", "%T%.f", "%T%.3f", "%X%.9f", "%R:%S%.6f", "%T%9f"]).prop_map(String::from);
+    let comp = proptest::sample::select(vec!["%T", "%X", "%R", "%r", "%T%.f", "%T%.3f", "%X%.9f", "%R:%S%.6f", "%T%9f", "%H%M%S", "%H%M", "%H%M%S%3f", "%I%M%S%p", "%p%I%M", "%I%p:%M", "%H%M%S%.f", "%l%P.%M"]).prop_map(String::from);
     prop_oneof![4 => h24, 3 => h12, 2 => comp].boxed()
 }
 
